@@ -48,6 +48,16 @@ pub struct Scenario {
     pub hash_seed: u64,
     pub source_class: String,
     pub config: String,
+    /// (file, byte offset): byte replaced by 0xFF on the disk (a source that is not UTF-8)
+    #[serde(default)]
+    pub flip: Option<(String, usize)>,
+    /// where the standard include directory comes from: "xdg" (XDG_CONFIG_HOME), "home"
+    /// (only HOME, with .config below it), "none" (neither variable)
+    #[serde(default = "xdg_default")]
+    pub envmode: String,
+}
+fn xdg_default() -> String {
+    "xdg".into()
 }
 
 // ---------------------------------------------------------------------------------------------
@@ -60,6 +70,8 @@ pub struct Parsed {
     pub output: Option<String>,
     pub eeprom: Option<String>,
     pub verbose: bool,
+    /// a token that is neither a known option nor the value of one
+    pub unknown: bool,
 }
 
 pub fn parse_argv(argv: &[String]) -> Parsed {
@@ -89,6 +101,8 @@ pub fn parse_argv(argv: &[String]) -> Parsed {
             take(&mut p.eeprom, Some(v), &mut i);
         } else if a == "-v" || a == "--verbosity" {
             p.verbose = true;
+        } else {
+            p.unknown = true;
         }
         i += 1;
     }
@@ -177,7 +191,14 @@ fn materialise(sc: &Scenario, root: &Path) -> Result<(), String> {
         if let Some(d) = fp.parent() {
             std::fs::create_dir_all(d).map_err(|e| e.to_string())?;
         }
-        std::fs::write(&fp, t.as_bytes()).map_err(|e| format!("write {}: {}", p, e))?;
+        let mut bytes = t.as_bytes().to_vec();
+        if let Some((f, off)) = &sc.flip {
+            if f == p && !bytes.is_empty() {
+                let o = (*off).min(bytes.len() - 1);
+                bytes[o] = 0xFF;
+            }
+        }
+        std::fs::write(&fp, bytes).map_err(|e| format!("write {}: {}", p, e))?;
     }
     for (p, n) in &sc.stale {
         let fp = root.join(p);
@@ -199,7 +220,31 @@ pub enum Reference {
     Fails(String),
 }
 
-pub fn reference(root: &Path, sc: &Scenario) -> Reference {
+/// The environment the tool and the in-process reference see for locating the standard includes.
+fn env_for(sc: &Scenario, xdg: &Path, ctl: &Path) -> (Option<PathBuf>, Option<PathBuf>) {
+    match sc.envmode.as_str() {
+        "home" => (None, Some(ctl.join("home"))),
+        "none" => (None, None),
+        _ => (Some(xdg.to_path_buf()), Some(ctl.join("nohome"))),
+    }
+}
+
+pub fn reference(root: &Path, sc: &Scenario, xdg: &Path, ctl: &Path) -> Reference {
+    let (x, h) = env_for(sc, xdg, ctl);
+    match &x {
+        Some(v) => std::env::set_var("XDG_CONFIG_HOME", v),
+        None => std::env::remove_var("XDG_CONFIG_HOME"),
+    }
+    match &h {
+        Some(v) => std::env::set_var("HOME", v),
+        None => std::env::remove_var("HOME"),
+    }
+    let r = reference_inner(root, sc);
+    std::env::set_var("XDG_CONFIG_HOME", xdg);
+    r
+}
+
+fn reference_inner(root: &Path, sc: &Scenario) -> Reference {
     let p = parse_argv(&sc.argv);
     let src = match p.source {
         Some(s) => s.replace("$R", &root.to_string_lossy()),
@@ -262,6 +307,9 @@ impl Env {
         let xdg = xdg.canonicalize().map_err(|e| format!("xdg: {}", e))?;
         // the in-process reference finds the standard include directory through the same variable
         std::env::set_var("XDG_CONFIG_HOME", &xdg);
+        // a home directory whose .config holds the same standard include directory
+        std::fs::create_dir_all(ctl.join("home/.config")).map_err(|e| e.to_string())?;
+        let _ = std::os::unix::fs::symlink(xdg.join("avra-rs"), ctl.join("home/.config/avra-rs"));
         Ok(Env { scratch, root, ctl, bin, preload, xdg })
     }
     fn clear_root(&self) {
@@ -315,8 +363,8 @@ pub fn execute(env: &Env, sc: &Scenario, budget: u64) -> Result<RunOut, String> 
     cmd.args(&argv)
         .current_dir(env.root.join(&sc.cwd))
         .env_clear()
-        .env("XDG_CONFIG_HOME", &env.xdg)
-        .env("HOME", env.ctl.join("nohome"))
+        .envs(env_for(sc, &env.xdg, &env.ctl).0.iter().map(|v| ("XDG_CONFIG_HOME", v.clone())))
+        .envs(env_for(sc, &env.xdg, &env.ctl).1.iter().map(|v| ("HOME", v.clone())))
         .env("LD_PRELOAD", &env.preload)
         .env("SIMLIBC_CONF", &confp)
         .env("RUST_BACKTRACE", "0")
@@ -568,7 +616,19 @@ fn text_head(b: &[u8]) -> String {
     String::from_utf8_lossy(&b[..b.len().min(400)]).into_owned()
 }
 
+/// A command line the tool may reject (an unknown option, a stray argument): rejecting it
+/// visibly without touching anything and accepting it and doing the job are both fine.
 pub fn judge(sc: &Scenario, out: &RunOut, reference: &Reference, root: &Path, seed: u64) -> Option<Violation> {
+    let parsed = parse_argv(&sc.argv);
+    if parsed.unknown && matches!(reference, Reference::Built { .. }) {
+        if judge_inner(sc, out, &Reference::Fails("usage error".into()), root, seed).is_none() {
+            return None;
+        }
+    }
+    judge_inner(sc, out, reference, root, seed)
+}
+
+fn judge_inner(sc: &Scenario, out: &RunOut, reference: &Reference, root: &Path, seed: u64) -> Option<Violation> {
     let parsed = parse_argv(&sc.argv);
     let mut parsed_abs = parsed.clone();
     let root_s = root.to_string_lossy().into_owned();
@@ -751,6 +811,8 @@ pub fn scenario_shape(tier: &str, base_seed: u64, g: u64) -> Scenario {
         hash_seed: seed,
         source_class: String::new(),
         config: String::new(),
+        flip: None,
+        envmode: "xdg".into(),
     };
     // ---- the source --------------------------------------------------------------------------
     let stem = STEMS[r.usize(STEMS.len())];
@@ -778,7 +840,7 @@ pub fn scenario_shape(tier: &str, base_seed: u64, g: u64) -> Scenario {
             }
         }
     };
-    let classes = ["code", "code", "code+eeprom", "code+eeprom", "eeprom-only", "empty", "comments", "fail", "fail", "missing", "part-file", "local-include", "large", "large", "gen-any"];
+    let classes = ["code", "code", "code+eeprom", "code+eeprom", "eeprom-only", "empty", "comments", "fail", "fail", "missing", "part-file", "part-file", "local-include", "large", "large", "gen-any", "not-utf8", "source-is-directory", "no-source-option", "unknown-option"];
     let mut class = classes[r.usize(classes.len())].to_string();
     if tier == "thorough" && r.chance(1, 60) {
         class = "huge".into();
@@ -794,7 +856,8 @@ pub fn scenario_shape(tier: &str, base_seed: u64, g: u64) -> Scenario {
             let eep = if r.chance(1, 2) { ".eseg\n.db 1, 2\n.cseg\n" } else { "" };
             Some(format!("{}{}", eep, gen_program(&mut r, Some(k), "f")))
         }
-        "missing" => None,
+        "missing" | "source-is-directory" => None,
+        "not-utf8" | "no-source-option" | "unknown-option" => Some(format!("{}.eseg\n.db 1\n", gen_program(&mut r, None, "u"))),
         "part-file" => {
             let p = PARTS[r.usize(PARTS.len())];
             Some(format!(".include \"{}\"\n    ldi r16, low(RAMEND)\n    out SPL, r16\n.eseg\n.db 7\n", p))
@@ -831,10 +894,20 @@ pub fn scenario_shape(tier: &str, base_seed: u64, g: u64) -> Scenario {
     };
     sc.source_class = class.clone();
     if let Some(t) = text {
+        if class == "not-utf8" {
+            sc.flip = Some((src_rel.clone(), r.usize(t.len().max(1))));
+        }
         sc.files.insert(src_rel.clone(), t);
+    } else if class == "source-is-directory" {
+        sc.dirs.push(src_rel.clone());
     } else if !srcdir.is_empty() {
         sc.dirs.push(srcdir.clone());
     }
+    sc.envmode = match r.below(12) {
+        0 => "home".into(),
+        1 if class != "part-file" => "none".into(),
+        _ => "xdg".into(),
+    };
     if !cwd.is_empty() {
         sc.dirs.push(cwd.clone());
     }
@@ -870,7 +943,12 @@ pub fn scenario_shape(tier: &str, base_seed: u64, g: u64) -> Scenario {
     }
     // the source option goes anywhere among the others
     let at = r.usize(groups.len() + 1);
-    groups.insert(at, src_opt);
+    if class != "no-source-option" {
+        groups.insert(at, src_opt);
+    }
+    if class == "unknown-option" {
+        groups.push(vec![["--bogus", "-x", "--output-dir=there", "stray-argument"][r.usize(4)].to_string()]);
+    }
     sc.argv = groups.into_iter().flatten().collect();
     // ---- pre-existing state --------------------------------------------------------------------
     let parsed = parse_argv(&sc.argv);
@@ -1124,6 +1202,11 @@ fn account(acc: &mut Acc, sc: &Scenario, out: &RunOut, reference: &Reference, ro
     stats.probe("empty_flash_image_with_eeprom_data", built && clen == 0 && elen > 0);
     stats.probe("empty_source", built && clen == 0 && elen == 0);
     stats.probe("source_missing", sc.source_class == "missing");
+    stats.probe("source_not_utf8_rejected", sc.source_class == "not-utf8" && !built);
+    stats.probe("source_is_a_directory", sc.source_class == "source-is-directory");
+    stats.probe("usage_error_rejected_visibly", parsed.unknown || parsed.source.is_none());
+    stats.probe("standard_includes_located_through_HOME", sc.envmode == "home" && sc.source_class == "part-file" && built);
+    stats.probe("neither_HOME_nor_XDG_CONFIG_HOME", sc.envmode == "none");
     if built && out.status != Some(0) && fired.is_empty() && !real_out_fail && sc.stdout == "pipe" && sc.fsize_limit.is_none() && !capped {
         stats.count("exit_nonzero_on_success_recorded_not_demanded", 1);
     }
@@ -1179,7 +1262,7 @@ pub fn worker(cfg: &WorkerCfg, emit: &mut dyn FnMut(Violation)) -> Stats {
             acc.stats.harness_errors.push(e);
             break;
         }
-        let reference = reference(&env.root, &sc);
+        let reference = reference(&env.root, &sc, &env.xdg, &env.ctl);
         let needs_profile = matches!(sc.config.as_str(), "enum" | "pair" | "fsize");
         let mut budget = 1_000_000u64;
         let mut digest = 0u64;
@@ -1275,7 +1358,7 @@ pub fn replay(scv: &Value) -> Result<Option<Violation>, String> {
     let env = Env::new("cli-w99")?;
     env.clear_root();
     materialise(&sc, &env.root)?;
-    let reference = reference(&env.root, &sc);
+    let reference = reference(&env.root, &sc, &env.xdg, &env.ctl);
     let mut p = sc.clone();
     p.rules.retain(|r| r.kind == "full-device");
     p.fsize_limit = None;
